@@ -101,6 +101,8 @@ def build():
     v.rewrite('R5', 'for (op_type, lanes) in &self.npo_lanes {', 'for q_ in 0..self.npo_lanes.len() { let (op_type, lanes) = (&self.npo_lanes[q_].0, &self.npo_lanes[q_].1);')
     v.rewrite('R11', '!self.min_trace_height.is_power_of_two()', '!usize_is_power_of_two(self.min_trace_height)')
     v.ensures('ok_iff_well_formed', 'ret is Ok <==> self.wf()')
+    # the verifier builds its AIRs from these proof-declared numbers: widths = lanes * lane width etc. are computed unchecked (alu_air.rs, public_air.rs, alu_columns.rs)
+    v.ensures('H_the_declared_lane_counts_and_packing_are_small_enough_for_the_width_arithmetic', 'ret is Ok ==> self.public_lanes < 0x1_0000_0000 && self.alu_lanes < 0x1_0000_0000 && self.horner_packed_steps < 0x1_0000_0000')
     v.loop('for q_ in 0..self.npo_lanes.len()', invariants=[('checked', 'forall|i: int| 0 <= i < q_ ==> (#[trigger] self.npo_lanes@[i]).1 > 0')])
     u.text('verus! {\nimpl TablePacking {')
     for f in (n, h, l, v):
